@@ -170,12 +170,62 @@ def evaluator_captures(f, fn_path, node_ref, ctx_ref):
     return tuple(caps)
 
 
+CTX = "expr::eval::context::EvalContext"
+_comp_memo = {}
+
+
+def context_components(f):
+    """the evaluation context and the crate-private types it is made of (a context split into a names part and a
+    cache part is still the context): local ADTs reachable from the context type through fields, not counting the
+    crate's public data types"""
+    key = getattr(f, "path", id(f))
+    if key in _comp_memo:
+        return _comp_memo[key]
+    import mir as _mir
+    public = set(_mir.CANONICAL_TYPES) - {CTX}
+    out = {CTX}
+    work = [CTX]
+    while work:
+        a = f.adts.get(work.pop())
+        if not a:
+            continue
+        for v in a["variants"]:
+            for fl in v["fields"]:
+                ty = fl.get("ty")
+                if ty is None:
+                    continue
+                ad = f.adt_of(f.peel(ty))
+                if ad and ad not in out and ad not in public and f.adts.get(ad, {}).get("local"):
+                    out.add(ad)
+                    work.append(ad)
+    _comp_memo[key] = out
+    return out
+
+
+def _receiver_component(f, b):
+    slf = (b.get("impl") or {}).get("self_s", "").split("<")[0]
+    return slf in context_components(f)
+
+
+def context_accessor(f, p):
+    """a context method that only hands out a reference to a part of the context (no call in its body)"""
+    b = f.bodies.get(p)
+    if not b or b.get("parent") or b.get("coroutine_kind") or not _receiver_component(f, b):
+        return False
+    if not f.ty_s(b["locals"][0]["ty"]).startswith("&"):
+        return False
+    return not any(blk["term"]["k"] == "call" for blk in b["blocks"] if not blk["cleanup"])
+
+
 def context_lookup(f, p):
-    """a method of the evaluation context that cannot evaluate a sub-expression (no Expr parameter): a lookup"""
+    """a method of the evaluation context (or of one of its parts) that cannot evaluate a sub-expression (no Expr
+    parameter): a lookup.  Plain accessors of a part of the context are not lookups; they are read through."""
     while f.bodies.get(p, {}).get("parent"):
         p = f.bodies[p]["parent"]           # the coroutine of an async method is judged by the method
     b = f.bodies.get(p)
-    if not b or not (b.get("impl") or {}).get("self_s", "").startswith("expr::eval::context::EvalContext"):
+    if not b or not _receiver_component(f, b):
+        return False
+    if context_accessor(f, p):
         return False
     return not any(EXPR in f.ty_s(b["locals"][i]["ty"]) for i in range(1, b["arg_count"] + 1))
 
